@@ -226,6 +226,12 @@ type c25Fake struct {
 	mode                        string // unversioned | enabled | suspended
 	regime                      string // s3: LastModified = creation; pithos: LastModified = last row update
 	listOrder                   string // recency | nulllast
+	// pageSize > 0: ListObjectVersions hands out at most that many entries per call and sets the
+	// continuation markers (S3 allows short pages), so marker handling of the reconciler is exercised
+	// without thousands of versions. zone: the time zone the listings report LastModified in (same
+	// instants) — database drivers may hand out non-UTC locations.
+	pageSize int
+	zone     *time.Location
 	listTags                    bool   // ListObjects entries carry the tag set
 	keys                        []string
 	chains                      map[string][]*c25Ver // newest first; [0] is the current version
@@ -272,7 +278,7 @@ func (f *c25Fake) ListObjects(_ context.Context, _ storage.BucketName, opts stor
 			continue
 		}
 		v := ch[0]
-		o := storage.Object{Key: storage.MustNewObjectKey(k), LastModified: v.lm, ETag: v.etag, Size: v.size, StorageClass: v.cls}
+		o := storage.Object{Key: storage.MustNewObjectKey(k), LastModified: f.lmOut(v.lm), ETag: v.etag, Size: v.size, StorageClass: v.cls}
 		vid := v.vid
 		o.VersionID = &vid
 		var lt map[string]string
@@ -289,9 +295,20 @@ func (f *c25Fake) ListObjects(_ context.Context, _ storage.BucketName, opts stor
 	return res, nil
 }
 
+func (f *c25Fake) lmOut(t time.Time) time.Time {
+	if f.zone != nil {
+		return t.In(f.zone)
+	}
+	return t
+}
+
 func (f *c25Fake) ListObjectVersions(_ context.Context, _ storage.BucketName, opts storage.ListObjectVersionsOptions) (*storage.ListObjectVersionsResult, error) {
-	f.rec.add("phase", "versions")
+	first := opts.KeyMarker == nil || *opts.KeyMarker == ""
+	if first {
+		f.rec.add("phase", "versions")
+	}
 	res := &storage.ListObjectVersionsResult{}
+	var all []storage.ObjectVersion
 	for _, k := range f.keys {
 		ch := append([]*c25Ver(nil), f.chains[k]...)
 		if f.listOrder == "nulllast" {
@@ -300,17 +317,49 @@ func (f *c25Fake) ListObjectVersions(_ context.Context, _ storage.BucketName, op
 		cur := f.chains[k]
 		for _, v := range ch {
 			ov := storage.ObjectVersion{Key: storage.MustNewObjectKey(k), VersionID: v.vid, IsDeleteMarker: v.dm, IsLatest: len(cur) > 0 && cur[0] == v,
-				LastModified: v.lm, Size: v.size, StorageClass: v.cls}
+				LastModified: f.lmOut(v.lm), Size: v.size, StorageClass: v.cls}
 			et := c25None
 			if !v.dm {
 				e := v.etag
 				ov.ETag = &e
 				et = verifx.HexS(e)
 			}
-			f.rec.add("ver", verifx.HexS(k), verifx.HexS(v.vid), v.dm, ov.IsLatest, c25Time{v.lm}, v.size, et, verifx.HexS(storage.EffectiveStorageClass(v.cls)), c25TagsTok(v.tags))
-			res.Versions = append(res.Versions, ov)
+			if first { // the trace carries the whole listing once, whatever the paging
+				f.rec.add("ver", verifx.HexS(k), verifx.HexS(v.vid), v.dm, ov.IsLatest, c25Time{v.lm}, v.size, et, verifx.HexS(storage.EffectiveStorageClass(v.cls)), c25TagsTok(v.tags))
+			}
+			all = append(all, ov)
 		}
 	}
+	// continuation: resume after (KeyMarker, VersionIDMarker); a key marker alone skips the whole key
+	start := 0
+	if !first {
+		km := *opts.KeyMarker
+		vm := ""
+		if opts.VersionIDMarker != nil {
+			vm = *opts.VersionIDMarker
+		}
+		start = len(all)
+		for i, ov := range all {
+			if vm != "" {
+				if ov.Key.String() == km && ov.VersionID == vm {
+					start = i + 1
+					break
+				}
+			} else if ov.Key.String() > km {
+				start = i
+				break
+			}
+		}
+	}
+	end := len(all)
+	if f.pageSize > 0 && start+f.pageSize < end {
+		end = start + f.pageSize
+		res.IsTruncated = true
+		last := all[end-1]
+		k, v := last.Key.String(), last.VersionID
+		res.NextKeyMarker, res.NextVersionIDMarker = &k, &v
+	}
+	res.Versions = all[start:end]
 	return res, nil
 }
 
